@@ -34,6 +34,33 @@ def d1(ctx, lin):
     ctx.floor('functions differentiated by autograd in linalg.py', n, 14)
 
 
+def _assembles(mod, f, call, re_arr, im_arr):
+    """`res[IDX] = CObs(re_arr[IDX], im_arr[IDX])` for every index IDX of the arrays: the loop runs over np.ndenumerate of one of them (the
+    entry it yields may stand for that array's element) and the same index addresses the store and both parts"""
+    if len(call.args) != 2 or call.keywords:
+        return False
+    st = mod.parents.get(call)
+    if not (isinstance(st, ast.Assign) and st.value is call and len(st.targets) == 1 and isinstance(st.targets[0], ast.Subscript)):
+        return False
+    loop = mod.parents.get(st)
+    if not (isinstance(loop, ast.For) and isinstance(loop.iter, ast.Call) and call_name(loop.iter) == 'ndenumerate' and len(loop.iter.args) == 1
+            and isinstance(loop.target, ast.Tuple) and len(loop.target.elts) == 2 and isinstance(loop.target.elts[1], ast.Name)):
+        return False
+    over = unparse(loop.iter.args[0])
+    it = loop.target.elts[0]
+    def itext(n_):
+        return ', '.join(unparse(e) for e in n_.elts) if isinstance(n_, ast.Tuple) else unparse(n_)
+    idx = itext(it)
+    val = loop.target.elts[1].id
+    if over not in (re_arr, im_arr) or itext(st.targets[0].slice) != idx:
+        return False
+    # neither the index nor the entry is rebound in the body
+    if any(isinstance(w, ast.Name) and isinstance(w.ctx, ast.Store) and (w.id == val or w.id in idx.split(', ')) for b in loop.body for w in ast.walk(b)):
+        return False
+    a, b = ['%s[%s]' % (unparse(x.value), itext(x.slice)) if isinstance(x, ast.Subscript) else unparse(x) for x in call.args]
+    return a in ('%s[%s]' % (re_arr, idx),) + ((val,) if over == re_arr else ()) and b in ('%s[%s]' % (im_arr, idx),) + ((val,) if over == im_arr else ())
+
+
 def d2_complex_product(ctx, lin):
     rule = 'C10-D2'
     f = lin.func('matmul')
@@ -154,7 +181,7 @@ def d2_complex_product(ctx, lin):
     okn = len(nr) == 1 and len(ni) == 1 and unparse(nr[0].value).startswith('derived_observable(multi_dot_r, extended_operands') and unparse(ni[0].value).startswith('derived_observable(multi_dot_i, extended_operands')
     ctx.check(rule, 'linalg.py:matmul#parts', okn, 'Nr from the real wrapper, Ni from the imaginary wrapper, same operands', 'Nr=%s Ni=%s' % ([unparse(s.value) for s in nr], [unparse(s.value) for s in ni]))
     cc = [c for c in walk(f) if isinstance(c, ast.Call) and call_name(c) == 'CObs']
-    ok = len(cc) == 1 and [unparse(a) for a in cc[0].args] == ['Nr[n, m]', 'Ni[n, m]']
+    ok = len(cc) == 1 and _assembles(lin, f, cc[0], 'Nr', 'Ni')
     ctx.check(rule, 'linalg.py:matmul#assemble', ok, 'result[n, m] = CObs(Nr[n, m], Ni[n, m])', 'assembled as %s' % [unparse(c) for c in cc])
     # extended operands: real appended before imaginary, tmp = (np.real, np.imag)
     ap = [c for c in walk(f) if isinstance(c, ast.Call) and isinstance(c.func, ast.Attribute) and c.func.attr == 'append' and unparse(c.func.value) == 'extended_operands']
@@ -223,7 +250,7 @@ def d3_blocks(ctx, lin):
     ctx.check(rule, 'linalg.py:_mat_mat_op#extraction', ok, 'result real part = top-left block, imaginary part = bottom-left block (where +B sits)',
               'extraction %s / %s' % ([unparse(s.value) for s in oa], [unparse(s.value) for s in ob]))
     cc = [c for c in walk(f) if isinstance(c, ast.Call) and call_name(c) == 'CObs']
-    ok = len(cc) == 1 and [unparse(a) for a in cc[0].args] == ['op_A[n, m]', 'op_B[n, m]']
+    ok = len(cc) == 1 and _assembles(lin, f, cc[0], 'op_A', 'op_B')
     ctx.check(rule, 'linalg.py:_mat_mat_op#assemble', ok, 'result[n, m] = CObs(op_A[n, m], op_B[n, m])', 'assembled as %s' % [unparse(c) for c in cc])
     dcs = [c for c in walk(f) if isinstance(c, ast.Call) and call_name(c) == 'derived_observable']
     ok = len(dcs) == 2 and all(unparse(kwarg(c, 'array_mode')) == 'True' for c in dcs if kwarg(c, 'array_mode') is not None) and all(kwarg(c, 'array_mode') is not None for c in dcs) \
